@@ -728,7 +728,9 @@ func (fr *Frame) alloc(st *State, t types.Type) Val {
 	p := Ptr{Root: ptrRoot(t), Base: r}
 	// zero-initialise
 	for _, l := range leaves(t) {
-		name := leafHeapName(p, l.Path)
+		name, q := leafLoc(p, l.Path)
+		r := q.Base
+		vc.freshRefs[r] = true
 		sort := vc.heapSortFor(name, l.Sort)
 		h := vc.heap(st, name, sort)
 		z := zeroTerm(l)
